@@ -185,7 +185,6 @@ func (u *uploader) CreateMultipartUpload(bucket, object string, meta map[string]
 		Initiated: u.timeSource.Now(),
 	}
 
-	// FIXME: make sure the uploader responds to DeleteBucket
 	bucketUploads := u.buckets[bucket]
 	if bucketUploads == nil {
 		u.buckets[bucket] = newBucketUploads()
@@ -195,6 +194,15 @@ func (u *uploader) CreateMultipartUpload(bucket, object string, meta map[string]
 	bucketUploads.add(mpu)
 
 	return mpu.ID, nil
+}
+
+// DeleteBucket forgets the uploads of a bucket that has been deleted. They
+// would otherwise be listed by, and could be completed into, a bucket created
+// under the same name later.
+func (u *uploader) DeleteBucket(bucket string) {
+	u.mu.Lock()
+	defer u.mu.Unlock()
+	delete(u.buckets, bucket)
 }
 
 func (u *uploader) ListParts(bucket, object string, uploadID UploadID, marker int, limit int64) (*ListMultipartUploadPartsResult, error) {
